@@ -55,7 +55,7 @@ Definition current : fixes := {|
   fx_time404 := true;     (* /repo 33c7128 *)
   fx_mpd_status := true;     (* /repo e7eedfb *)
   fx_stop_order := true;     (* /repo 1df8e52 *)
-  fx_location := false         (* proposed, not applied *)
+  fx_location := true          (* /repo 1ca804f *)
 |}.
 
 Definition all_fixed : fixes := {|
